@@ -34,3 +34,16 @@ oracle = F.contain_oracle
 
 def nontrivial(case, reply):
     return "outside" in case.get("src", "") or "_out" in case.get("src", "")
+
+MANIFEST = {
+    "text": "Proof over an ABSTRACT file system (any canonicalize, any contents): Root::check succeeds exactly for paths whose resolved "
+            "location has the canonical root as a component-wise prefix, reports DirectoryTraversal exactly when the target exists "
+            "outside, an I/O error when it does not resolve; trace invariant by induction over preprocess / resolve_and_ingest at any "
+            "nesting depth: every file read other than the top-level source lies inside the root and is immediately preceded by the "
+            "successful check of a path resolving to it; an error yields no output bytes.",
+    "note": "Partial by nature: that std::fs::canonicalize returns the fully resolved location and that the file read is the file checked "
+            "(no concurrent modification) are assumptions about the OS, represented by the FS parameter. Trusted: Lean kernel; "
+            "Asm/Ingest.lean tied to ingest.rs by the differential run on trees with symlinked files/directories, `..`, absolute paths "
+            "and canary files; the oracle re-materialises the tree and uses the OS's own realpath.",
+    "technique": "Lean 4 trace-invariant proof over an abstract file system + differential correspondence on materialised trees with canaries + realpath oracle",
+}
